@@ -11,9 +11,12 @@ Kinds == {"ifT", "ifElseT", "ifElseE", "elif1", "elif2", "while", "fromTo", "fro
           \* the same constructs with compound (multi-instruction) conditions, bounds and steps
           "ifX", "whileX", "fromToX", "fromStepX",
           \* a loop whose constant range is empty: the body is compiled but never runs
-          "fromEmpty"}
+          "fromEmpty",
+          \* loops whose start / end / step are variables that the body reassigns: start and end are read once
+          \* on entry, the step on every iteration
+          "fromVars", "fromThruVar"}
 Terms == {"fall", "break", "continue", "ret", "assert", "div0", "oob"}
-LoopKinds == {"while", "fromTo", "fromThru", "fromStep", "fromAnon", "fromColl", "whileX", "fromToX", "fromStepX", "fromEmpty"}
+LoopKinds == {"while", "fromTo", "fromThru", "fromStep", "fromAnon", "fromColl", "whileX", "fromToX", "fromStepX", "fromEmpty", "fromVars", "fromThruVar"}
 
 VARIABLES path, term, pad, done
 vars == <<path, term, pad, done>>
@@ -26,7 +29,7 @@ Ctx0 == [lv |-> "", inloop |-> FALSE, infn |-> FALSE]
 Enter(ctx, k, d) ==
     CASE k = "fn" -> [lv |-> "", inloop |-> FALSE, infn |-> TRUE]
       [] k \in {"while", "whileX"} -> [ctx EXCEPT !.lv = Name("w", d), !.inloop = TRUE]
-      [] k \in {"fromTo", "fromThru", "fromStep", "fromColl", "fromToX", "fromStepX"} -> [ctx EXCEPT !.lv = Name("i", d), !.inloop = TRUE]
+      [] k \in {"fromTo", "fromThru", "fromStep", "fromColl", "fromToX", "fromStepX", "fromVars", "fromThruVar"} -> [ctx EXCEPT !.lv = Name("i", d), !.inloop = TRUE]
       [] k \in {"fromAnon", "fromEmpty"} -> [ctx EXCEPT !.inloop = TRUE]
       [] OTHER -> ctx
 RECURSIVE CtxAt(_, _, _)
@@ -77,6 +80,12 @@ Build(p, d, t, ctx, padded) ==
       [] k = "fromStep" -> <<From(I(-1), I(4), FALSE, <<I(2)>>, Name("i", d), body)>> \o after
       [] k = "fromAnon" -> <<From(I(0), I(2), FALSE, <<>>, "", body)>> \o after
       [] k = "fromEmpty" -> <<From(I(5), I(5), FALSE, <<>>, "", body)>> \o after
+      [] k = "fromVars" -> <<Let(Name("lo", d), I(0)), Let(Name("hi", d), I(4)), Let(Name("st", d), I(1)),
+                             From(V(Name("lo", d)), V(Name("hi", d)), FALSE, <<V(Name("st", d))>>, Name("i", d),
+                                  <<Let(Name("lo", d), I(2)), Let(Name("hi", d), I(2)), Let(Name("st", d), I(2))>> \o body),
+                             Print(Bin("+", V(Name("lo", d)), Bin("+", V(Name("hi", d)), V(Name("st", d)))))>> \o after
+      [] k = "fromThruVar" -> <<Let(Name("hi", d), I(2)),
+                                From(I(0), V(Name("hi", d)), TRUE, <<>>, Name("i", d), <<Let(Name("hi", d), Bin("-", V(Name("hi", d)), I(2)))>> \o body)>> \o after
       [] k = "fromColl" -> <<Let(Name("i", d), I(7)),
                              From(I(0), I(3), FALSE, <<>>, Name("i", d), body),
                              Print(V(Name("i", d)))>> \o after
